@@ -76,11 +76,18 @@ pub fn verify<T: AsRef<[u8]>>(
         #[allow(clippy::arithmetic_side_effects)] // path_length_from_key checks
         let height = parent + 1;
 
-        let subtree_size = 1u64 << height;
+        // A subtree of 2^64 leaves covers every possible leaf index, so it can never be
+        // complete: stop climbing, as for any other subtree reaching past the last leaf.
+        let Some(subtree_size) = u32::try_from(height)
+            .ok()
+            .and_then(|height| 1u64.checked_shl(height))
+        else {
+            break
+        };
         #[allow(clippy::arithmetic_side_effects)] // floor(a / b) * b <= a
         let subtree_start_index = proof_index / subtree_size * subtree_size;
-        #[allow(clippy::arithmetic_side_effects)]
-        let subtree_end_index = subtree_start_index + subtree_size - 1;
+        #[allow(clippy::arithmetic_side_effects)] // start + (size - 1) <= u64::MAX
+        let subtree_end_index = subtree_start_index + (subtree_size - 1);
 
         if subtree_end_index >= num_leaves {
             break
